@@ -254,7 +254,9 @@ def build_handler(prog: dict, rec: Recorder):
             v = thunk()
         except Exception as e:  # ordinary errors only: SDK BaseExceptions (suspend, orphan, background) propagate
             rec.deliver(path, "error", exc_repr(e))
-            if node.get("caught") and not isinstance(e, InvocationError):   # invocation-level errors must propagate
+            # caught=True: try/except by ordinary exception classes (invocation-level errors are left to propagate, as the SDK
+            # requires); caught="all": a blanket `except Exception` that swallows everything (C06/C18: must still be fail-stop)
+            if node.get("caught") == "all" or (node.get("caught") and not isinstance(e, InvocationError)):
                 obs.append("E:" + exc_repr(e))
                 return None
             raise
@@ -272,6 +274,8 @@ def build_handler(prog: dict, rec: Recorder):
                     step_ctx.logger.info(f"{path}@inside")
                     rec.log("LogCall", pt=f"{path}@inside")
                 rec.gate(node.get("gate") or f"fn:{path}")
+                if node.get("dur"):
+                    ds.vsleep(node["dur"])      # the user function takes (virtual) time
                 nfail = node.get("fail", 0)
                 if nfail == -1 or attempt <= nfail:
                     rec.fn_exit(path, False)
